@@ -651,6 +651,71 @@ func bucket(n int) string {
 }
 
 // ---------------------------------------------------------------------------------------------
+// shrinking: delta debugging over op positions; dropping a creating op renumbers the later handles
+// (and drops the ops that referred to the dropped node), so that sub-histories stay meaningful.
+
+func creates(o Op) bool {
+	switch o.Name {
+	case "pushfront", "pushback", "insertbefore", "insertafter":
+		return true
+	}
+	return false
+}
+
+func project(ops []Op, keep []int) []Op {
+	keepSet := map[int]bool{}
+	for _, k := range keep {
+		keepSet[k] = true
+	}
+	newIdx := map[int]int{}
+	created, n := 0, 0
+	var out []Op
+	for i, o := range ops {
+		kept := keepSet[i]
+		if kept {
+			ref := func(h int) int {
+				if v, ok := newIdx[h]; ok {
+					return v
+				}
+				kept = false
+				return 0
+			}
+			switch o.Name {
+			case "insertbefore", "insertafter", "remove", "movetofront", "movetoback":
+				o.A = ref(o.A)
+			case "movebefore", "moveafter":
+				o.A = ref(o.A)
+				o.B = ref(o.B)
+			}
+		}
+		if creates(o) {
+			if kept {
+				newIdx[created] = n
+				n++
+			}
+			created++
+		}
+		if kept {
+			out = append(out, o)
+		}
+	}
+	return out
+}
+
+func shrinkOps(ops []Op, fails func([]Op) bool) []Op {
+	idx := make([]int, len(ops))
+	for i := range idx {
+		idx[i] = i
+	}
+	small := vlib.Shrink(idx, func(c []int) bool { return fails(project(ops, c)) })
+	out := project(ops, small)
+	if !fails(out) {
+		return ops
+	}
+	return out
+}
+
+// ---------------------------------------------------------------------------------------------
 // checking one case
 
 func at(a []string, i int) string {
@@ -662,7 +727,7 @@ func at(a []string, i int) string {
 
 func check(ops []Op, m *vlib.Model, res *vlib.Result) {
 	if v := monitor(ops); v != nil {
-		small := vlib.Shrink(ops, func(c []Op) bool { vv := monitor(c); return vv != nil && vv.kind == v.kind })
+		small := shrinkOps(ops, func(c []Op) bool { vv := monitor(c); return vv != nil && vv.kind == v.kind })
 		if vv := monitor(small); vv != nil {
 			v = vv
 		}
@@ -683,7 +748,7 @@ func check(ops []Op, m *vlib.Model, res *vlib.Result) {
 			mo, err := m.Run(modelLines(c))
 			return err == nil && vlib.FirstDiff(runImpl(c), mo) >= 0
 		}
-		small := vlib.Shrink(ops, differs)
+		small := shrinkOps(ops, differs)
 		im := runImpl(small)
 		mo, _ := m.Run(modelLines(small))
 		j := vlib.FirstDiff(im, mo)
@@ -900,9 +965,13 @@ func main() {
 	if env.Thorough() || env.Deep {
 		depth = 6
 	}
-	// random histories get 40% of the budget, the enumeration the rest
+	// the enumeration first (it may use 3/4 of the budget), random histories for the rest
+	complete, st := exhaustive(depth, 4, m, res, start.Add(budget*3/4))
 	r := vlib.NewRand(env.Seed)
-	deadline := start.Add(budget * 2 / 5)
+	deadline := start.Add(budget)
+	if min := time.Now().Add(budget / 5); deadline.Before(min) {
+		deadline = min
+	}
 	maxCases := 4000
 	if env.Thorough() || env.Deep {
 		maxCases = 100000
@@ -917,7 +986,6 @@ func main() {
 		res.Case(key(ops), stats(ops, res), sample)
 		check(ops, m, res)
 	}
-	complete, st := exhaustive(depth, 4, m, res, start.Add(budget))
 	res.Evaluations += st.nodes
 	res.Nontrivial += st.nontrivial
 	res.Dist["enumerated-sequences"] = st.nodes
